@@ -202,6 +202,8 @@ def c06_cfgs(tier):
     q += [cfg('c06', 'D1', ends='ss', prog=p, **lag) for p in ('wp', 'wwp', 'wpp', 'pwp', 'wwpp')] + [cfg('c06', 'D2', ends='s', prog='wwp', **lag), cfg('c06', 'D2', ends='sa', prog='wpp', **lag)]
     # the camera's frames grow during the acquisition (forced wrap of the ring under a caught-up monitor)
     q += [cfg('c06', 'D1', ends=e, prog=p, reshape_at=k, reshape_w=64, reshape_h=1, **{**base, 'n': 4}) for e in ('s', 'a') for p in ('m', 'mm', 'wm', 'p') for k in (1, 2)]
+    # two streams, both monitored
+    q += [cfg('c06', 'D1', ends=e, prog=p, streams=2, n1=3, **{**base, 'n': 2}) for e in ('ss', 'as') for p in ('m', 'pm')]
     # the first acquisition's storage fails with frames still queued; the client first maps during the second acquisition
     q += [cfg('c06', 'D1', ends=e, prog=p, fault_first=k, append_ms=12, **{**base, 'from': 1}) for e in ('ss', 'as') for p in ('m', 'wm') for k in (0, 1)]
     if tier == 'quick':
@@ -285,6 +287,7 @@ def c10_cfgs(tier):
     q += [cfg('c10', b, avg=2, n=n, **{**base, 'exposure': e}) for (e, n) in ((5, 4), (10, 2), (5, 2), (10, 4)) for b in (1, 'D2')] + [cfg('c10', 2, avg=2, n=2, **{**base, 'exposure': 10})]
     q += [cfg('c10', 1, avg=2, n=4, **{**base, 'exposure': 0, 'fringf': 1}),   # camera without exposure wait: the source outruns the filter thread
           cfg('c10', 0, avg=3, n=7, w=2, h=2, **base), cfg('c10', 0, avg=2, n=6, **{**base, 'prefill': 0}), cfg('c10', 0, avg=2, n=4, client=1, **base)]
+    q += [cfg('c10', 'D1', avg=2, n=4, streams=2, n1=5, **base)]   # two averaged streams (delay bounding: preemption bound 1 on six worker threads does not finish)
     if tier == 'quick':
         return q
     t = list(q)
